@@ -1,5 +1,102 @@
+(* C29 — extending a prepared database is equivalent to preparing the union.
+   Only statements, closed by `exact`.  Model: ModelClauseDB.v (chain of layers = ClauseDB
+   parent pointers / offsets / redirects).  `abs fuel c s` is the definition list of predicate s
+   seen through database c (find, get_node, define children in order) rendered back to source
+   level (bodies rebuilt from the body nodes, the shared AD body inlined, node numbers and
+   group ids dropped); `fuel` bounds the rendering depth and is universally quantified.
+   gm is the AD group-id rule (GLocal = code as it is, GGlobal = repaired): the theorems hold for both. *)
 From Coq Require Import List Arith Bool NArith.
-From PL.C29 Require Import ModelClauseDB.
+From PL.C29 Require Import ModelClauseDB ProofsBase ProofsInv ProofsStmt ProofsAD ProofsHist.
 Import ListNotations.
-Example C29_placeholder : size root0 = 0.
-Proof. reflexivity. Qed.
+
+(* DESIGN: abs (fold add cs (extend (prepare P))) = abs (prepare (P ++ cs)), per user predicate,
+   order preserved, for every base program P, every list cs of added facts / clauses / ADs. *)
+Theorem C29_extend_union : forall gm P cs fuel s, is_user s ->
+  abs fuel (adds gm cs (extend (adds gm P root0))) s = abs fuel (adds gm (P ++ cs) root0) s.
+Proof. exact extend_union. Qed.
+Print Assumptions C29_extend_union.
+
+(* ... and that list is the source-level statement list itself: parent's clauses first, then the
+   added ones, in order (rendering depth large enough for every statement). *)
+Theorem C29_extend_union_spec : forall gm P cs fuel s, is_user s ->
+  Forall (fun st => sdepth st < fuel) (P ++ cs) ->
+  abs fuel (adds gm cs (extend (adds gm P root0))) s = spec (P ++ cs) s.
+Proof. exact extend_union_spec. Qed.
+Print Assumptions C29_extend_union_spec.
+
+(* the same through ANY well-formed chain (nested extensions: d may itself be an extension of an
+   extension ...): extending is transparent for every later history of additions *)
+Theorem C29_extend_transparent : forall gm d ss fuel s, d <> [] -> WFc d -> is_user s ->
+  abs fuel (adds gm ss (extend d)) s = abs fuel (adds gm ss d) s.
+Proof. exact extend_transparent. Qed.
+Print Assumptions C29_extend_transparent.
+
+Theorem C29_adds_append : forall gm c ss fuel s, c <> [] -> WFc c -> is_user s ->
+  abs fuel (adds gm ss c) s = abs fuel c s ++ specFs fuel ss s.
+Proof. exact adds_abs. Qed.
+Print Assumptions C29_adds_append.
+
+(* every chain reachable by any history (adds and nested extends) from the empty root is well-formed *)
+Theorem C29_reachable_wf : forall gm ops, WFc (run gm ops root0) /\ run gm ops root0 <> [].
+Proof. exact reachable_wf. Qed.
+Print Assumptions C29_reachable_wf.
+
+(* parent isolation: whatever is added to an extension, the parent chain is bit-for-bit the same *)
+Theorem C29_parent_isolated : forall gm ss d, parent_of (adds gm ss (extend d)) = d.
+Proof. exact parent_isolated_adds. Qed.
+Print Assumptions C29_parent_isolated.
+
+Theorem C29_parent_abs_unchanged : forall gm ss d fuel s,
+  abs fuel (parent_of (adds gm ss (extend d))) s = abs fuel d s.
+Proof. exact parent_abs_unchanged. Qed.
+Print Assumptions C29_parent_abs_unchanged.
+
+(* for every history with nested extends: all ancestors below the current database are untouched *)
+Theorem C29_ancestors_untouched : forall gm ops l p, exists pre, pre <> [] /\ run gm ops (l :: p) = pre ++ p.
+Proof. exact run_keeps_parent. Qed.
+Print Assumptions C29_ancestors_untouched.
+
+(* no write below the offset is ever attempted (no IndexError path, no in-place update of a
+   parent's define node), in any layer, for any history *)
+Theorem C29_no_write_below_offset : forall gm ops, any_err (run gm ops root0) = false.
+Proof. exact history_no_parent_write. Qed.
+Print Assumptions C29_no_write_below_offset.
+
+(* at the moment of extension nothing changes at all *)
+Theorem C29_extend_view : forall c i s, chain_ok c ->
+  get_node (extend c) i = get_node c i /\ get_head (extend c) s = get_head c s /\ size (extend c) = size c.
+Proof. exact extend_view. Qed.
+Print Assumptions C29_extend_view.
+
+(* NOT proved (see notes/C29.md): C29_redirect_sound (call nodes of the parent seen through the child
+   resolve to the extended definition).  It is FALSE for the code as it is at depth >= 3
+   (Findings.v: C29_nested_redirect_refuted); at depth <= 2 it is checked on every sampled history by
+   evaluating `call_resolves` in the model (whose tables are compared with the implementation's). *)
+
+(* ---------------------------------------------------------------- non-vacuity *)
+Definition p_ : N := 5.  Definition q_ : N := 6.  Definition r_ : N := 7.  Definition a_ : term := [2; 20; 0]%N.
+Definition exP : list stmt :=
+  [ SFact p_ [a_] (Some 3%N);
+    SClause q_ [[0;0]%N] (BAnd (BCall p_ [[0;0]%N]) (BNot (BCall r_ []))) 1 ].
+Definition exCs : list stmt :=
+  [ SFact p_ [[2;21;0]%N] None;                                         (* extends p/1 of the parent *)
+    SAD [(r_, [], 1%N); (q_, [a_], 2%N)] (BCall p_ [[0;0]%N]) 1;        (* AD on new r/0 and existing q/1 *)
+    SClause r_ [] (BBuiltin 4 [] 1) 0 ].
+
+Example C29_ex_child_p :
+  abs 9 (adds GLocal exCs (extend (adds GLocal exP root0))) (FU p_, 1)
+  = [RFact [a_] (Some 3%N); RFact [[2;21;0]%N] None].
+Proof. vm_compute. reflexivity. Qed.
+
+Example C29_ex_child_q_has_parent_clause_first :
+  length (abs 9 (adds GLocal exCs (extend (adds GLocal exP root0))) (FU q_, 1)) = 2
+  /\ abs 9 (adds GLocal exCs (extend (adds GLocal exP root0))) (FU q_, 1) = spec (exP ++ exCs) (FU q_, 1).
+Proof. vm_compute. split; reflexivity. Qed.
+
+Example C29_ex_redirect_exists :
+  l_redir (hd empty_layer (adds GLocal exCs (extend (adds GLocal exP root0)))) <> [].
+Proof. vm_compute. discriminate. Qed.
+
+Example C29_ex_parent_sees_only_its_own :
+  abs 9 (parent_of (adds GLocal exCs (extend (adds GLocal exP root0)))) (FU p_, 1) = [RFact [a_] (Some 3%N)].
+Proof. vm_compute. reflexivity. Qed.
